@@ -78,6 +78,9 @@ Variable tab_el tab_en : nametab.
 Variable check_fn : N -> list N -> res bool.
 Variable LATEST : N.
 Variable root_attrs : list (N * cdata).
+(* attributes and comment of the original root element *)
+Variable ra : list (N * cdata).
+Variable rcm : option (list N).
 
 (* ------------------------------------------------------------------ new_model *)
 Lemma new_model_inv w r w' :
@@ -133,7 +136,8 @@ Qed.
 Definition RootOf (n0 : N) (nm : nat) (croot : id) (c : N) (w : world) : Prop :=
   n0 <= croot /\ (nm <= N.to_nat c)%nat /\
   exists n x, w_nodes w croot = Some n /\ n_parent n = PModel c /\
-              nth_opt (w_models w) (N.to_nat c) = Some x /\ m_root x = croot.
+              nth_opt (w_models w) (N.to_nat c) = Some x /\ m_root x = croot /\
+              n_attrs n = ra /\ n_comment n = rcm.
 Definition RootEmpty (croot : id) (w : world) : Prop :=
   exists n, w_nodes w croot = Some n /\ n_content n = [].
 
@@ -151,10 +155,10 @@ Qed.
 Lemma RootOf_wset_files n0 nm croot c w i n fs :
   w_nodes w i = Some n -> RootOf n0 nm croot c w -> RootOf n0 nm croot c (wset w i (set_files n fs)).
 Proof.
-  intros Hi (A & B & n1 & x & Hn1 & Hp & Hx & Hr). split; auto. split; auto.
+  intros Hi (A & B & n1 & x & Hn1 & Hp & Hx & Hr & Ha & Hcm). split; auto. split; auto.
   unfold wset; cbn [w_nodes w_models]. destruct (N.eq_dec croot i) as [->|Hne].
-  - rewrite Hi in Hn1. injection Hn1 as <-. exists (set_files n fs), x. rewrite upd_eq. auto.
-  - exists n1, x. rewrite upd_neq by auto. auto.
+  - rewrite Hi in Hn1. injection Hn1 as <-. exists (set_files n fs), x. rewrite upd_eq. repeat split; auto.
+  - exists n1, x. rewrite upd_neq by auto. repeat split; auto.
 Qed.
 Lemma RootEmpty_wset_files croot w i n fs :
   w_nodes w i = Some n -> RootEmpty croot w -> RootEmpty croot (wset w i (set_files n fs)).
@@ -173,8 +177,8 @@ Lemma create_file_fresh n0 nm nf croot c name ver w r w' :
      exists fl, nth_opt (w_files w') (N.to_nat fid) = Some fl /\ f_name fl = name /\ f_version fl = ver /\ f_model fl = c).
 Proof.
   intros HI HR HE H. unfold m_create_file in H.
-  destruct HR as (Hcr & Hc & n & x & Hn & Hpar & Hx & Hroot).
-  assert (HR : RootOf n0 nm croot c w) by (split; auto; split; auto; exists n, x; auto).
+  destruct HR as (Hcr & Hc & n & x & Hn & Hpar & Hx & Hroot & Hra & Hrcm).
+  assert (HR : RootOf n0 nm croot c w) by (split; auto; split; auto; exists n, x; repeat split; auto).
   apply wbind_inv in H as [(x1 & w1 & E & H) | (e & E & _)].
   2: { apply get_model_inv in E as (? & _ & [=] & _). }
   apply get_model_inv in E as (x1' & Hx1 & [= <-] & ->). rewrite Hx in Hx1. injection Hx1 as <-.
@@ -232,4 +236,299 @@ Proof.
     exact HF2.
 Qed.
 
+Lemma RootOf_same n0 nm croot c w w' :
+  w_nodes w' = w_nodes w -> w_models w' = w_models w -> RootOf n0 nm croot c w -> RootOf n0 nm croot c w'.
+Proof. intros En Em (A & B & n & x & H1 & H2 & H3 & H4 & H5 & H6). split; auto. split; auto. exists n, x. rewrite En, Em. repeat split; auto. Qed.
+Lemma RootEmpty_same croot w w' : w_nodes w' = w_nodes w -> RootEmpty croot w -> RootEmpty croot w'.
+Proof. intros En (n & H1 & H2). exists n. rewrite En. auto. Qed.
+
+(* the first loop of duplicate: one new file per file of the original *)
+Lemma dup_files_spec n0 nm nf croot c : forall files filemap w r w',
+  DInv n0 nm nf w -> RootOf n0 nm croot c w -> RootEmpty croot w ->
+  dup_files T c files filemap w = Val (r, w') ->
+  DInv n0 nm nf w' /\ DSame n0 nm nf w w' /\ RootOf n0 nm croot c w' /\ RootEmpty croot w'.
+Proof.
+  induction files as [|f rest IH]; intros filemap w r w' HI HR HE H; cbn [dup_files] in H.
+  - apply wret_inv in H as (_ & ->). repeat (split; auto); apply DSame_refl.
+  - apply wbind_inv in H as [(fl & w1 & E & H) | (e & E & _)].
+    2: { apply get_file_inv in E as (? & _ & [=] & _). }
+    apply get_file_inv in E as (fl' & _ & [= <-] & ->).
+    apply wbind_inv in H as [(nfid & w1 & E & H) | (e & E & ->)].
+    2: { destruct (create_file_fresh _ _ _ _ _ _ _ _ _ _ HI HR HE E) as (A & B & C & D & _). auto. }
+    destruct (create_file_fresh _ _ _ _ _ _ _ _ _ _ HI HR HE E) as (HI1 & HS1 & HR1 & HE1 & HF1).
+    destruct (HF1 nfid eq_refl) as (Hge & flx & Hflx & _).
+    apply wbind_inv in H as [(nfl & w2 & E2 & H) | (e & E2 & _)].
+    2: { apply get_file_inv in E2 as (? & _ & [=] & _). }
+    apply get_file_inv in E2 as (nfl' & _ & [= <-] & ->).
+    apply wbind_inv in H as [(u & w2 & E2 & H) | (e & E2 & _)]; [|discriminate E2].
+    unfold set_file in E2. injection E2 as _ <-.
+    set (w2 := mkWorld _ _ _ _) in *.
+    assert (HI2 : DInv n0 nm nf w2).
+    { apply (DInv_same_nodes n0 nm nf w1); auto.
+      - apply HI1.
+      - unfold w2; cbn. rewrite list_set_length. apply HI1. }
+    assert (HS2 : DSame n0 nm nf w1 w2).
+    { split; [|split]; auto. unfold w2; cbn. apply firstn_list_set. exact Hge. }
+    destruct (IH _ _ _ _ HI2 (RootOf_same _ _ _ _ w1 w2 eq_refl eq_refl HR1) (RootEmpty_same _ w1 w2 eq_refl HE1) H)
+      as (A & B & C & D).
+    split; auto. split; auto. eapply DSame_trans; [exact HS1|]. eapply DSame_trans; eauto.
+Qed.
+
+(* ------------------------------------------------------------------ the second loop: copies below the new root *)
+Lemma model_of_root w croot n c :
+  w_nodes w croot = Some n -> n_parent n = PModel c -> model_of croot w = Val (OK c, w).
+Proof.
+  intros Hn Hp. unfold model_of, wbind, wget, fuel_of. cbn [model_walk].
+  unfold wbind, get_node. rewrite Hn, Hp. reflexivity.
+Qed.
+
+Lemma firstn_IdxOnly m ms ms' nm : IdxOnly m ms ms' -> (nm <= N.to_nat m)%nat -> firstn nm ms' = firstn nm ms.
+Proof. intros [->|(x & i & o & _ & ->)] H; auto. apply firstn_list_set. exact H. Qed.
+
+Lemma copy_into_root n0 nm nf croot c other w r w' :
+  DInv n0 nm nf w -> RootOf n0 nm croot c w ->
+  copy_call T LATEST croot other None w = Val (r, w') ->
+  DInv n0 nm nf w' /\ DSame n0 nm nf w w' /\ RootOf n0 nm croot c w'.
+Proof.
+  intros (I1 & I2 & I3 & I4 & I5) (Hcr & Hc & n & x & Hn & Hpar & Hx & Hroot & Hra & Hrcm) H.
+  destruct (copy_source_unchanged T LATEST _ _ _ _ _ _ I5 H) as (Cw' & _ & Hh).
+  destruct (Hh n Hn) as (content' & Hn').
+  destruct (frame_copy T LATEST _ _ _ _ _ _ I5 H) as (m & (F1 & F2 & F3 & F4) & Hm).
+  destruct (copy_call_FK T LATEST n0 _ _ _ _ _ _ I1 I4 H) as (K1 & K2).
+  assert (Hidx : firstn nm (w_models w') = firstn nm (w_models w)).
+  { destruct Hm as [->|Hm]; auto.
+    rewrite (model_of_root _ _ _ _ Hn Hpar) in Hm. injection Hm as <-. eapply firstn_IdxOnly; eauto. }
+  split; [|split].
+  - repeat split; auto; try lia; try apply Cw'.
+    + rewrite (IdxOnly_length _ _ _ F4). exact I2.
+    + rewrite F3. exact I3.
+  - split; [|split]; auto.
+    + intros i Hi. apply F2; lia.
+    + rewrite F3. reflexivity.
+  - split; auto. split; auto.
+    destruct (IdxOnly_nth _ _ _ _ _ F4 Hx) as (y & Hy & Hry & _ & _).
+    exists (set_content n content'), y. repeat split; auto. congruence.
+Qed.
+
+Lemma dup_children_spec n0 nm nf croot c : forall items w r w',
+  DInv n0 nm nf w -> RootOf n0 nm croot c w ->
+  dup_children T LATEST croot items w = Val (r, w') ->
+  DInv n0 nm nf w' /\ DSame n0 nm nf w w' /\ RootOf n0 nm croot c w'.
+Proof.
+  induction items as [|[e|d] rest IH]; intros w r w' HI HR H; cbn [dup_children] in H.
+  - apply wret_inv in H as (_ & ->). repeat (split; auto); apply DSame_refl.
+  - apply wbind_inv in H as [(cc & w1 & E & H) | (e0 & E & ->)].
+    + destruct (copy_into_root _ _ _ _ _ _ _ _ _ HI HR E) as (A & B & C).
+      destruct (IH _ _ _ A C H) as (A2 & B2 & C2). split; auto. split; auto. eapply DSame_trans; eauto.
+    + exact (copy_into_root _ _ _ _ _ _ _ _ _ HI HR E).
+  - eauto.
+Qed.
+
+(* ------------------------------------------------------------------ the pre-order walk only lists descendants *)
+Definition dfs_kids (dfs : id -> W (list id)) : list citem -> W (list id) :=
+  fix kids (l : list citem) : W (list id) :=
+    match l with
+    | [] => wret []
+    | CElem c :: r => (do a <- dfs c; do b <- kids r; wret (a ++ b))%W
+    | CData _ :: r => kids r
+    end.
+Lemma dfs_ids_S f i :
+  dfs_ids (S f) i = (do n <- get_node i; do rest <- dfs_kids (dfs_ids f) (n_content n); wret (i :: rest))%W.
+Proof. reflexivity. Qed.
+
+Lemma Sub_prepend w i n c x :
+  w_nodes w i = Some n -> In (CElem c) (n_content n) -> Sub w c x -> Sub w i x.
+Proof.
+  intros Hn Hin HS. induction HS as [|p m y HS IH Hp Hy].
+  - econstructor; [constructor | exact Hn | exact Hin].
+  - econstructor; eauto.
+Qed.
+
+Lemma dfs_ids_Sub f : forall i w r w', dfs_ids f i w = Val (r, w') -> forall l, r = OK l -> forall x, In x l -> Sub w i x.
+Proof.
+  induction f as [|f IH]; intros i w r w' H l -> x Hx; [discriminate H|].
+  rewrite dfs_ids_S in H.
+  apply wbind_inv in H as [(n & w1 & E & H) | (e & E & [=])].
+  apply get_node_inv in E as (n' & Hn & [= <-] & ->).
+  apply wbind_inv in H as [(rest & w1 & E & H) | (e & E & [=])].
+  apply wret_inv in H as ([= ->] & _).
+  destruct Hx as [<-|Hx]; [constructor|].
+  assert (K : forall items w0 ids w2, dfs_kids (dfs_ids f) items w0 = Val (OK ids, w2) ->
+              forall y, In y ids -> exists c, In (CElem c) items /\ Sub w0 c y).
+  { clear - IH. induction items as [|[c|d] items IHi]; intros w0 ids w2 H y Hy; cbn [dfs_kids] in H.
+    - apply wret_inv in H as ([= ->] & _). destruct Hy.
+    - apply wbind_inv in H as [(a & w3 & E & H) | (e & E & [=])].
+      assert (w3 = w0) by (eapply ro_dfs_ids; eauto). subst w3.
+      apply wbind_inv in H as [(b & w4 & E2 & H) | (e & E2 & [=])].
+      apply wret_inv in H as ([= ->] & _).
+      apply in_app_or in Hy as [Hy|Hy].
+      + exists c. split; [left; reflexivity|]. eapply IH; eauto.
+      + destruct (IHi _ _ _ E2 y Hy) as (c' & Hc' & HS). exists c'. split; [right; exact Hc' | exact HS].
+    - destruct (IHi _ _ _ H y Hy) as (c' & Hc' & HS). exists c'. split; [right; exact Hc' | exact HS]. }
+  destruct (K _ _ _ _ E x Hx) as (c & Hc & HS). eapply Sub_prepend; eauto.
+Qed.
+
+(* ------------------------------------------------------------------ the third loop: file membership of the copy *)
+Lemma dup_membership_spec n0 nm nf croot c filemap : forall oids cids w r w',
+  (forall x, In x cids -> n0 <= x) ->
+  DInv n0 nm nf w -> RootOf n0 nm croot c w ->
+  dup_membership filemap oids cids w = Val (r, w') ->
+  DInv n0 nm nf w' /\ DSame n0 nm nf w w' /\ RootOf n0 nm croot c w'.
+Proof.
+  induction oids as [|o orest IH]; intros cids w r w' Hfresh HI HR H.
+  - cbn in H. apply wret_inv in H as (_ & ->). repeat (split; auto); apply DSame_refl.
+  - destruct cids as [|cc crest]; cbn [dup_membership] in H.
+    { apply wret_inv in H as (_ & ->). repeat (split; auto); apply DSame_refl. }
+    apply wbind_inv in H as [(on & w1 & E & H) | (e & E & _)].
+    2: { apply get_node_inv in E as (? & _ & [=] & _). }
+    apply get_node_inv in E as (on' & _ & [= <-] & ->).
+    apply wbind_inv in H as [(wg & w1 & E & H) | (e & E & _)].
+    2: { apply wget_inv in E as ([=] & _). }
+    apply wget_inv in E as ([= ->] & ->).
+    apply wbind_inv in H as [(u & w1 & E & H) | (e & E & _)].
+    2: { apply modify_node_wset in E as (? & _ & [=] & _). }
+    apply modify_node_wset in E as (cn & Hcn & _ & ->).
+    assert (Hcc : n0 <= cc) by (apply Hfresh; left; reflexivity).
+    destruct (DR_wset_files n0 nm nf w cc cn (translate_files w filemap (n_files on)) Hcn Hcc HI) as (HI1 & HS1).
+    pose proof (RootOf_wset_files _ _ _ _ _ _ _ (translate_files w filemap (n_files on)) Hcn HR) as HR1.
+    destruct (IH crest _ _ _ (fun x Hx => Hfresh x (or_intror Hx)) HI1 HR1 H) as (A & B & C).
+    split; auto. split; auto. eapply DSame_trans; eauto.
+Qed.
+
 End Dup.
+
+Section DupTop.
+Variable T : tables.
+Variable tab_el tab_en : nametab.
+Variable check_fn : N -> list N -> res bool.
+Variable LATEST : N.
+Variable root_attrs : list (N * cdata).
+
+(* what duplicate() leaves behind when it succeeds: model c is new, its root is the node allocated first, carries the
+   decor of the original root, and everything reachable from it was allocated by this call *)
+Definition DupResult (m : N) (w : world) (c : N) (w' : world) : Prop :=
+  c = N.of_nat (List.length (w_models w)) /\
+  exists x rn xc rc,
+    nth_opt (w_models w) (N.to_nat m) = Some x /\ w_nodes w (m_root x) = Some rn /\
+    nth_opt (w_models w') (N.to_nat c) = Some xc /\ m_root xc = w_next w /\
+    w_nodes w' (w_next w) = Some rc /\ n_parent rc = PModel c /\
+    n_attrs rc = n_attrs rn /\ n_comment rc = n_comment rn /\
+    FreshKids (w_next w) w' /\ Closed w' /\
+    (forall y, Sub w' (w_next w) y -> w_next w <= y).
+
+Lemma Closed_nodes w w' : Closed w -> w_nodes w' = w_nodes w -> w_next w' = w_next w -> Closed w'.
+Proof. intros [A B] En Ex. split; intros; rewrite ?En, ?Ex in *; eauto. Qed.
+
+Lemma dup_body_spec m w r w' :
+  Closed w ->
+  (forall x, nth_opt (w_models w) (N.to_nat m) = Some x -> exists rn, w_nodes w (m_root x) = Some rn) ->
+  m_duplicate_body T LATEST root_attrs m w = Val (r, w') ->
+  DSame (w_next w) (List.length (w_models w)) (List.length (w_files w)) w w' /\ w_next w <= w_next w' /\
+  (List.length (w_models w) <= List.length (w_models w'))%nat /\ (List.length (w_files w) <= List.length (w_files w'))%nat /\
+  forall c, r = OK c -> DupResult m w c w'.
+Proof.
+  intros Cw Hroots H. unfold m_duplicate_body in H.
+  set (n0 := w_next w). set (nm := List.length (w_models w)). set (nf := List.length (w_files w)).
+  assert (EXIT : forall w1 (r1 : out N), DInv n0 nm nf w1 -> DSame n0 nm nf w w1 -> (forall c, r1 <> OK c) ->
+     DSame n0 nm nf w w1 /\ n0 <= w_next w1 /\ (nm <= List.length (w_models w1))%nat /\ (nf <= List.length (w_files w1))%nat /\
+     forall c, r1 = OK c -> DupResult m w c w1).
+  { intros w1 r1 (A & B & C & _) S Hr. split; [exact S|]. split; [exact A|]. split; [exact B|]. split; [exact C|].
+    intros c0 Hc0. exfalso. eapply Hr; eauto. }
+  apply wbind_inv in H as [(x & w1 & E & H) | (e & E & _)].
+  2: { apply get_model_inv in E as (? & _ & [=] & _). }
+  apply get_model_inv in E as (x' & Hx & [= <-] & ->).
+  destruct (Hroots x Hx) as (rn & Hrn).
+  assert (Hrootlt : m_root x < n0) by (eapply (proj1 Cw); eauto).
+  apply wbind_inv in H as [(c & w1 & E & H) | (e & E & _)].
+  2: { apply new_model_inv in E as (? & ? & [=] & _). }
+  apply new_model_inv in E as (rname & rty & Ec & ->). injection Ec as ->.
+  set (c := N.of_nat nm) in *.
+  set (rnode := mkNode (PModel c) rname rty [] root_attrs [] None) in *.
+  set (w1 := mkWorld _ _ _ _) in *.
+  apply wbind_inv in H as [(rn1 & w2 & E & H) | (e & E & _)].
+  2: { apply get_node_inv in E as (? & _ & [=] & _). }
+  apply get_node_inv in E as (rn1' & Hrn1 & [= <-] & ->).
+  assert (rn1 = rn).
+  { unfold w1 in Hrn1; cbn in Hrn1. rewrite upd_neq in Hrn1 by (fold n0; lia). congruence. }
+  subst rn1. clear Hrn1.
+  apply wbind_inv in H as [(cx & w2 & E & H) | (e & E & _)].
+  2: { apply get_model_inv in E as (? & _ & [=] & _). }
+  apply get_model_inv in E as (cx' & Hcx & [= <-] & ->).
+  assert (cx = mkModel n0 [] [] []).
+  { unfold w1 in Hcx; cbn [w_models] in Hcx. unfold c in Hcx. rewrite Nnat.Nat2N.id in Hcx.
+    unfold nm in Hcx. rewrite nth_opt_app_new in Hcx. injection Hcx as <-. reflexivity. }
+  subst cx. cbn [m_root] in H.
+  (* the root of the copy gets the decor of the original root *)
+  apply wbind_inv in H as [(u & w2 & E & H) | (e & E & _)].
+  2: { apply modify_node_wset in E as (? & _ & [=] & _). }
+  apply modify_node_wset in E as (rn0 & Hrn0 & _ & ->).
+  assert (rn0 = rnode).
+  { unfold w1 in Hrn0; cbn [w_nodes] in Hrn0. unfold n0 in Hrn0. rewrite upd_eq in Hrn0. injection Hrn0 as <-. reflexivity. }
+  subst rn0.
+  set (rnode2 := set_comment (set_attrs rnode (n_attrs rn)) (n_comment rn)) in *.
+  set (w2 := wset w1 n0 rnode2) in *.
+  assert (Cw1 : Closed w1).
+  { apply (Closed_nodes (walloc w rnode)); [|reflexivity|reflexivity].
+    apply Closed_alloc; [exact Cw | intros y []]. }
+  assert (Cw2 : Closed w2).
+  { apply (Closed_upd w1 n0 rnode rnode2 Cw1); [unfold w1; cbn; apply upd_eq | intros y []]. }
+  assert (FK2 : FreshKids n0 w2).
+  { intros p k y Hp Hk Hin. unfold w2, wset, w1 in Hk; cbn [w_nodes] in Hk.
+    destruct (N.eq_dec p n0) as [->|Hne].
+    - rewrite upd_eq in Hk. injection Hk as <-. destruct Hin.
+    - rewrite upd_neq in Hk by exact Hne. unfold n0 in Hne. rewrite upd_neq in Hk by exact Hne.
+      apply (proj1 Cw) in Hk. unfold n0 in Hp. lia. }
+  assert (HI2 : DInv n0 nm nf w2).
+  { repeat split; try apply Cw2; auto.
+    - unfold w2, wset, w1; cbn. lia.
+    - unfold w2, wset, w1; cbn. rewrite app_length. cbn. lia. }
+  assert (HS2 : DSame n0 nm nf w w2).
+  { split; [|split].
+    - intros i Hi. unfold w2, wset, w1; cbn. rewrite !upd_neq by lia. reflexivity.
+    - reflexivity.
+    - unfold w2, wset, w1; cbn. apply firstn_app_le. unfold nm. lia. }
+  assert (HR2 : RootOf (n_attrs rn) (n_comment rn) n0 nm n0 c w2).
+  { split; [lia|]. split; [unfold c; rewrite Nnat.Nat2N.id; lia|].
+    exists rnode2, (mkModel n0 [] [] []). unfold w2, wset; cbn [w_nodes w_models]. rewrite upd_eq.
+    repeat split; auto. }
+  assert (HE2 : RootEmpty n0 w2).
+  { exists rnode2. unfold w2, wset; cbn [w_nodes]. rewrite upd_eq. auto. }
+  (* files *)
+  apply wbind_inv in H as [(filemap & w3 & E & H) | (e & E & ->)].
+  2: { destruct (dup_files_spec T _ _ _ _ _ _ _ _ _ _ _ _ HI2 HR2 HE2 E) as (A & B & _).
+       apply EXIT; [exact A | eapply DSame_trans; eauto | intros c0 [=]]. }
+  destruct (dup_files_spec T _ _ _ _ _ _ _ _ _ _ _ _ HI2 HR2 HE2 E) as (HI3 & HS3 & HR3 & _). clear E.
+  (* copies of the root's sub-elements *)
+  apply wbind_inv in H as [(u4 & w4 & E & H) | (e & E & ->)].
+  2: { destruct (dup_children_spec T LATEST _ _ _ _ _ _ _ _ _ _ _ HI3 HR3 E) as (A & B & _).
+       apply EXIT; [exact A | eapply DSame_trans; [exact HS2|]; eapply DSame_trans; eauto | intros c0 [=]]. }
+  destruct (dup_children_spec T LATEST _ _ _ _ _ _ _ _ _ _ _ HI3 HR3 E) as (HI4 & HS4 & HR4). clear E.
+  assert (HS04 : DSame n0 nm nf w w4).
+  { eapply DSame_trans; [exact HS2|]. eapply DSame_trans; eauto. }
+  apply wbind_inv in H as [(wg & w5 & E & H) | (e & E & _)].
+  2: { apply wget_inv in E as ([=] & _). }
+  apply wget_inv in E as ([= ->] & ->).
+  apply wbind_inv in H as [(oids & w5 & E & H) | (e & E & ->)].
+  2: { assert (w' = w4) by (eapply ro_dfs_ids; eauto). subst w'. apply EXIT; auto. intros c0 [=]. }
+  assert (w5 = w4) by (eapply ro_dfs_ids; eauto). subst w5. clear E.
+  apply wbind_inv in H as [(cids & w5 & E & H) | (e & E & ->)].
+  2: { assert (w' = w4) by (eapply ro_dfs_ids; eauto). subst w'. apply EXIT; auto. intros c0 [=]. }
+  assert (w5 = w4) by (eapply ro_dfs_ids; eauto). subst w5.
+  assert (Hcids : forall y, In y cids -> n0 <= y).
+  { intros y Hy. eapply FreshKids_Sub; [apply HI4 | apply N.le_refl | eapply dfs_ids_Sub; eauto]. }
+  clear E.
+  apply wbind_inv in H as [(u6 & w6 & E & H) | (e & E & ->)].
+  2: { destruct (dup_membership_spec _ _ _ _ _ _ _ _ _ _ _ _ Hcids HI4 HR4 E) as (A & B & _).
+       apply EXIT; [exact A | eapply DSame_trans; eauto | intros c0 [=]]. }
+  destruct (dup_membership_spec _ _ _ _ _ _ _ _ _ _ _ _ Hcids HI4 HR4 E) as (HI6 & HS6 & HR6). clear E.
+  apply wret_inv in H as (-> & ->).
+  assert (HS06 : DSame n0 nm nf w w6) by (eapply DSame_trans; eauto).
+  destruct HI6 as (I1 & I2 & I3 & I4 & I5).
+  split; auto. split; auto. split; auto. split; auto.
+  intros c0 [= <-]. split; [reflexivity|].
+  destruct HR6 as (_ & _ & rc & xc & Hrc & Hpar & Hxc & Hrt & Hat & Hcm).
+  exists x, rn, xc, rc. repeat split; auto; try apply I5.
+  intros y HS. eapply FreshKids_Sub; eauto. apply N.le_refl.
+Qed.
+
+End DupTop.
